@@ -169,16 +169,23 @@ def run(ctx):
                "watch_tmp_on_error": True}
         if keyed:
             req["key"] = key
-        snap = snapshot_reqs(cache, keys)
+        target_cache = cache
+        if point in ("reject_size", "reject_integrity", "reject_size_more", "chunks_drop", "open_drop") and rng.random() < 0.12:
+            # the same on a cache that has never had a successful commit: the listing of a directory without an index
+            # must not change either (nor may index directories appear)
+            target_cache = ctx.new_cache()
+            req["cache"] = target_cache
+            ctx.count("writers_on_fresh_cache")
+        snap = snapshot_reqs(target_cache, keys)
         if not point.startswith("reject") and point not in ("close_commit", "io_failed_commit") and ln:
             # a writer that is merely dropped (after any number of chunks, a flush or a close) must not make its bytes
             # reachable by address either
             a_sri = ref.sri("sha256", data)
-            snap = snap + [{"op": "exists", "cache": cache, "sri": a_sri}, {"op": "read_hash", "cache": cache, "sri": a_sri}]
+            snap = snap + [{"op": "exists", "cache": target_cache, "sri": a_sri}, {"op": "read_hash", "cache": target_cache, "sri": a_sri}]
         # generous while the temp area behaves; once a permanent leak has been established there is no point in
         # waiting 10 s for every further case
         qms = 10000 if leaks_found == 0 else 200
-        reqs = snap + [req, {"op": "tmp_quiesce", "cache": cache, "timeout_ms": qms}] + snap
+        reqs = snap + [req, {"op": "tmp_quiesce", "cache": target_cache, "timeout_ms": qms}] + snap
         resps = ctx.batch(mode, reqs, timeout=60)
         ns = len(snap)
         before, w, q, after = resps[:ns], resps[ns], resps[ns + 1], resps[ns + 2:]
@@ -231,7 +238,7 @@ def run(ctx):
         if ev.is_ok(q):
             maxpolls = max(maxpolls, q["ok"].get("polls", 0))
             left = q["ok"].get("left", [])
-        py_left = stray(cache)
+        py_left = stray(cache) + (stray(target_cache) if target_cache != cache else [])
         ctx.count("tmp_censuses")
         if left or py_left:
             # re-check: permanent leak or just slow?
